@@ -18,4 +18,5 @@ let () =
         | _ -> ()) (List.filter (fun s -> s <> "") (split_on ',' f.(3)));
       String.concat " " (List.rev !out)
     | "quiesce" -> "quiesced=tsx0/tp0/dlg0/backlog0/cancel0"
+    | "stun" -> "pending=0/0"
     | _ -> "-")
